@@ -851,3 +851,28 @@ func bridgeCheck(run *core.Run, prop string) []ledgerRun {
 	}
 	return runs
 }
+
+// DebugBridgeTraced is used by cmd/dbg3.
+func DebugBridgeTraced() string {
+	node.Quiet()
+	br, err := bridgeTracedRun()
+	if err != nil {
+		return err.Error()
+	}
+	verdicts, _, err := validateLedgerRuns([]ledgerRun{*br}, "Conservation Backed")
+	out := fmt.Sprintf("%d events, err %v\n", len(br.Events), err)
+	for _, v := range verdicts {
+		js, _ := json.Marshal(v.Event)
+		out += fmt.Sprintf("verdict line %d inv %q event %s\n", v.Line, v.Inv, tail(string(js), 600))
+	}
+	n := 0
+	for _, ev := range br.Events {
+		if ev["ev"] == "CRecv" {
+			js, _ := json.Marshal(ev)
+			if strings.Contains(string(js), "fail") || n < 0 {
+				out += "CRecv fail: " + tail(string(js), 500) + "\n"
+			}
+		}
+	}
+	return out
+}
